@@ -21,7 +21,7 @@ ASSUMPTIONS = [
 ]
 PLAN = {
     "quick": {"shards": 8, "shard_timeout": 400, "case_timeout": 25, "grammars": 200, "max_case_timeouts": 6},
-    "thorough": {"shards": 16, "shard_timeout": 3600, "case_timeout": 40, "grammars": 8000, "max_case_timeouts": 80},
+    "thorough": {"shards": 16, "shard_timeout": 3600, "case_timeout": 40, "grammars": 16000, "max_case_timeouts": 160},
 }
 THRESHOLDS = {
     "quick": {"remapped:ge": 300, "remapped:sge": 300, "remapped:dsge": 300, "remapped:stack": 60, "genotypes_with_refined_fields": 300, "dsge_extension_draws": 100, "after_variation": 300},
